@@ -458,6 +458,13 @@ def drive(ctx, exe, scripts, tag):
                            {"harness_args": [], "wrap": True, "script_text": texts[sid - 1][:400000], "event": e, "step": step})
         os.unlink(path)
         pos = end
+    # distinct non-trivial executions: different script bodies in which at least one parse/expand/find/temp call returned
+    import hashlib
+    seen = ctx.__dict__.setdefault("_distinct", set())
+    for sid in by:
+        sc = scripts[sid - 1]
+        if any(sc.meta[st]["op"] in ("parse", "expand", "find", "temp") for st in by[sid]):
+            seen.add(hashlib.sha1("\n".join(sc.lines).encode()).digest()[:8])
     ctx.add("trace_events_validated", len(events))
     ctx.add("trace_events_rejected", nrej)
     ctx.add("traces_validated_against_impl", len(by))
@@ -519,7 +526,9 @@ def run(ctx):
     ctx.sample({"temp_event": next((e for e in tev if e["op"] == "temp"), None)})
     ctx.sample({"parse_event": next((e for e in ev if e["op"] == "parse"), None)})
     ctx.cov["evaluations"] = ctx.cov.get("evaluations", 0)
-    ctx.cov["distinct_nontrivial"] = ctx.cov.get("traces_validated_against_impl", 0)
+    ctx.cov["distinct_nontrivial"] = len(ctx.__dict__.get("_distinct", ()))
+    ctx.cov["nontrivial_rule"] = ("an execution counts if its script body differs from every other one and at least one parse / expand / "
+                                  "find_file / temp_file call of it returned (evaluations = harness steps executed, including file creation and registrations)")
     ctx.cov["exhaustive"] = False
     ctx.cov["rule"] = ("every driver execution (files -> init -> register -> parse/expand -> free, possibly several cycles) is run once under "
                        "ASan with process creation refused; each recorded event must be accepted by TLC as a step of ConfLife")
